@@ -144,6 +144,27 @@ fn run_history(start: &str, ops: &mut dyn FnMut(&RealState, usize) -> Option<Str
             break;
         }
     }
+    // the public observers of Node at the end of the history, against the model's definitions (Props/C03Observers): tip / root
+    // flags and depth of every slot (removed ones are refused), the parent-side length record for every parent-child pair and
+    // for a non-child
+    {
+        let slots = slots_of(&st.tree);
+        let n = slots.len();
+        if n <= 40 {
+            for x in 0..=n {
+                case.step(&mut st, &format!("ar.q\tnode\t{x}"), Cmp::OkExact);
+            }
+            for (p, s) in slots.iter().enumerate() {
+                for c in s.children.iter().take(4) {
+                    case.step(&mut st, &format!("ar.q\tchild_edge\t{p}\t{c}"), Cmp::OkExact);
+                }
+                if p < 6 {
+                    case.step(&mut st, &format!("ar.q\tchild_edge\t{p}\t{}", (p + 1) % n.max(1)), Cmp::OkExact);
+                }
+            }
+            rep.count("histories_with_node_observers");
+        }
+    }
     rep.case(&case.script(), ok_edits >= 1 && rejected >= 1);
     rep.count(&format!("history_len:{}", i.min(60) / 10 * 10));
     batch.push(case);
